@@ -244,4 +244,67 @@ def treeGlweMulConstAssign (be : BE) (n : Nat) (res : G) (bSize : Nat) : AllocTr
     (.take (bigBytes be n 1 res.size)
       (loop (res.rank + 1) (.alt (leaf (cnvByConstTmp be res.size res.size bSize)) (treeBigNormalize be n))))
 
+/-! ### noise helpers, tensor decryption, packing -/
+
+/-- glwe_noise_tmp_bytes -/
+def tbGlweNoise (be : BE) (n size : Nat) : Nat :=
+  vecBytes n 1 size + max (tbGlweNormalize n) (tbGlweDecrypt be n size)
+
+/-- `glwe_noise`: a plaintext, `glwe_decrypt` and `glwe_normalize_assign` on `scratch_1` -/
+def treeGlweNoise (be : BE) (n : Nat) (g : G) : AllocTree :=
+  .need (tbGlweNoise be n g.size)
+    (.take (vecBytes n 1 g.size) (.alt (treeGlweDecrypt be n g) (treeGlweNormalize n)))
+
+/-- gglwe_noise_tmp_bytes -/
+def tbGglweNoise (be : BE) (n size : Nat) : Nat := vecBytes n 1 size + tbGlweNoise be n size
+
+def treeGglweNoise (be : BE) (n : Nat) (g : G) : AllocTree :=
+  .need (tbGglweNoise be n g.size) (.take (vecBytes n 1 g.size) (treeGlweNoise be n g))
+
+/-- ggsw_noise_tmp_bytes -/
+def tbGgswNoise (be : BE) (n size : Nat) : Nat :=
+  vecBytes n 1 size + max (tbGlweNoise be n size) (dftBytes be n 1 size + bigNormTmp be n)
+
+/-- `ggsw_noise(res, row, col, ..)`: for `col > 0` the plaintext is multiplied by `s[col-1]` first -/
+def treeGgswNoise (be : BE) (n : Nat) (g : G) (col : Nat) : AllocTree :=
+  .need (tbGgswNoise be n g.size)
+    (.take (vecBytes n 1 g.size)
+      (.alt (if col = 0 then .done else .take (dftBytes be n 1 g.size) (treeBigNormalize be n))
+        (treeGlweNoise be n g)))
+
+/-- glwe_tensor_decrypt_tmp_bytes (`res` = the tensor: rank, size) -/
+def tbGlweTensorDecrypt (be : BE) (n : Nat) (g : G) : Nat :=
+  svpBytes be n (pairs g.rank + g.rank) + tbGlweDecrypt be n g.size
+
+/-- `glwe_tensor_decrypt`: the grouped secret, then `glwe_decrypt` with it -/
+def treeGlweTensorDecrypt (be : BE) (n : Nat) (g : G) : AllocTree :=
+  .need (tbGlweTensorDecrypt be n g)
+    (.take (svpBytes be n (pairs g.rank + g.rank)) (treeGlweDecrypt be n ⟨pairs g.rank + g.rank, g.size, g.b2k⟩))
+
+/-- the three cases of `pack_internal` / `combine` (both inputs, only `a`, only `b`) -/
+def treePackStep (be : BE) (n : Nat) (a : G) (k : K) : AllocTree :=
+  altList [
+    .take (a.bytes n)
+      (altList [treeGlweRotateAssign n, treeGlweRsh n, treeGlweNormalize n, treeGlweAutomorphism be n a a k]),
+    altList [treeGlweRsh n, treeGlweAutomorphismAdd be n a a k],
+    .take (a.bytes n) (.alt (treeGlweRsh n) (treeGlweAutomorphismAdd be n a a k))]
+
+/-- glwe_pack_tmp_bytes(res, key) -/
+def tbGlwePack (be : BE) (n : Nat) (res : G) (k : K) : Nat :=
+  max (res.bytes n + max (max (max (tbGlweRotate n) (tbGlweShift n)) (tbGlweNormalize n)) (tbGlweAutomorphism be n res res k))
+    (tbGlweTrace be n res res k)
+
+/-- `glwe_pack(res, cts, log_gap_out, keys)`: `log_n − log_gap_out` rounds of `pack_internal`, then `glwe_trace` -/
+def treeGlwePack (be : BE) (n rounds iters : Nat) (res a : G) (k : K) : AllocTree :=
+  .need (tbGlwePack be n res k)
+    (.alt (loop rounds (treePackStep be n a k)) (treeGlweTrace be n iters res a k))
+
+/-- glwe_packer_tmp_bytes(res, key) -/
+def tbGlwePacker (be : BE) (n : Nat) (res : G) (k : K) : Nat :=
+  res.bytes n + max (tbGlweShift n) (tbGlweAutomorphism be n res res k)
+
+/-- `glwe_packer_add`: a copy/normalisation into the first accumulator or a chain of `combine` steps -/
+def treeGlwePackerAdd (be : BE) (n : Nat) (res : G) (k : K) : AllocTree :=
+  .need (tbGlwePacker be n res k) (.alt (treeGlweNormalize n) (treePackStep be n res k))
+
 end Scratch
